@@ -710,6 +710,9 @@ def replay_c07(bindir, rp):
 C17_DEFS = '''LIST_G = ["c", "a", "b"]
 NEST_G = [["z", "y"], ["x", "w"]]
 DICT_G = {"k": ["x", "y"], "n": {"m": "v"}}
+FILT_G = [v for v in ["a", "b", "c", "d", "e"] if v != "e" and v != "d"]
+SLICE_G = ["p", "q", "r", "s"][:2]
+NUMS_G = [n for n in [1, 2, 3, 4, 5, 6, 7] if n < 4]
 
 def lit():
     return ["c", "a", "b"]
@@ -724,7 +727,8 @@ def mixed(extra = None):
     return [1, "two", ["three", 3]]
 
 def observe():
-    return "|".join([str(lit()), str(nested()), str(litd()), str(mixed()), str(LIST_G), str(NEST_G), str(DICT_G)])
+    return "|".join([str(lit()), str(nested()), str(litd()), str(mixed()), str(LIST_G), str(NEST_G), str(DICT_G),
+                     str(FILT_G), str(SLICE_G), str(NUMS_G), str(FILT_G + ["obs"]), str(SLICE_G + ["obs"]), str(NUMS_G + [0])])
 '''
 
 # mutation / re-ordering idioms; each is a few statements using a fresh variable prefix
@@ -754,6 +758,17 @@ C17_IDIOMS = [
     ('x = DICT_G["n"]', 'x["m"] = "MUT_%s"'),
     ('x = lit()', 'y = x', 'y[1] = "MUT_%s"'),
     ('x = {"a": lit()}', 'y = x["a"]', 'y[0] = "MUT_%s"'),
+    # concatenation with an exported list must give a list of one's own
+    ('x = FILT_G + ["MUT_%s"]',),
+    ('x = FILT_G + ["own"]', 'x[0] = "MUT_%s"'),
+    ('x = SLICE_G + ["MUT_%s"]',),
+    ('x = SLICE_G + ["own"]', 'x[1] = "MUT_%s"'),
+    ('x = NUMS_G + [99]', 'x[0] = 98'),
+    ('x = LIST_G + ["own"]', 'x[0] = "MUT_%s"'),
+    ('x = FILT_G + SLICE_G', 'x[0] = "MUT_%s"'),
+    ('x = sorted(FILT_G + ["MUT_%s"])',),
+    ('x = [v for v in FILT_G]', 'x[0] = "MUT_%s"'),
+    ('x = FILT_G[:2]', 'x[0] = "MUT_%s"'),
 ]
 
 
